@@ -38,6 +38,7 @@ impl Rep {
 
 pub fn run(obligation: &str) -> i32 {
     let mut rep = Rep::new();
+    if obligation.starts_with("C02.") || obligation.starts_with("C05.") { c02_c05_assembly(&mut rep); return rep.finish("C02_C05_assembly"); }
     if obligation.starts_with("C06.int_type_token") { c06_int_type_token(&mut rep); return rep.finish("C06.int_type_token"); }
     if obligation.starts_with("C06.") { c06_integer_constraints(&mut rep); return rep.finish("C06.integer_constraints"); }
     println!("REPLAY-NOTE no native replay registered for {obligation}");
@@ -153,6 +154,85 @@ fn c06_int_type_token(rep: &mut Rep) {
                     _ => rep.check("C06.int_type_token.open_end_is_Integer", name == "Integer", desc),
                 }
                 if ext { rep.check("C06.int_type_token.extensible_is_Integer", name == "Integer", desc); }
+            }
+        }
+    }
+}
+
+// ---------------------------------------------------------------------------------------------- C02 / C05
+fn member(name: &str) -> SequenceOrSetMember {
+    SequenceOrSetMember { name: name.into(), tag: None, ty: ASN1Type::Null, optionality: Optionality::Required, is_recursive: false, constraints: vec![] }
+}
+fn option(name: &str) -> ChoiceOption {
+    ChoiceOption { name: name.into(), tag: None, ty: ASN1Type::Null, constraints: vec![], is_recursive: false }
+}
+fn enumeral(name: &str, i: i128) -> Enumeral { Enumeral { name: name.into(), description: None, index: i } }
+
+/// all component-list shapes of length 0..=3 over {Member, ComponentsOf}
+fn shapes(max: usize) -> Vec<Vec<bool>> {
+    let mut out = vec![vec![]];
+    let mut frontier: Vec<Vec<bool>> = vec![vec![]];
+    for _ in 0..max {
+        let mut next = vec![];
+        for f in &frontier { for b in [false, true] { let mut g = f.clone(); g.push(b); next.push(g); } }
+        out.extend(next.iter().cloned());
+        frontier = next;
+    }
+    out
+}
+fn show(shape: &[bool]) -> String { shape.iter().map(|c| if *c { "C" } else { "M" }).collect::<Vec<_>>().join(",") }
+
+fn c02_c05_assembly(rep: &mut Rep) {
+    // SEQUENCE/SET from component lists with COMPONENTS OF (true = ComponentsOf)
+    for root in shapes(3) {
+        for marker in [false, true] {
+            for adds in std::iter::once(None).chain(shapes(2).into_iter().map(Some)) {
+                let mk = |shape: &[bool], prefix: &str| -> Vec<SequenceComponent> {
+                    shape.iter().enumerate().map(|(i, c)| if *c { SequenceComponent::ComponentsOf(format!("{prefix}T{i}")) } else { SequenceComponent::Member(member(&format!("{prefix}{i}"))) }).collect()
+                };
+                let r_in = mk(&root, "r");
+                let a_in = adds.as_ref().map(|a| mk(a, "a"));
+                let all: Vec<SequenceComponent> = r_in.iter().cloned().chain(a_in.clone().unwrap_or_default()).collect();
+                let want_members: Vec<String> = all.iter().filter_map(|c| if let SequenceComponent::Member(m) = c { Some(m.name.clone()) } else { None }).collect();
+                let want_comps: Vec<String> = all.iter().filter_map(|c| if let SequenceComponent::ComponentsOf(n) = c { Some(n.clone()) } else { None }).collect();
+                let root_members = root.iter().filter(|c| !**c).count();
+                let has_comps = root.iter().any(|c| *c);
+                let got = SequenceOrSet::from(((r_in, if marker { Some(ExtensionMarker()) } else { None }, a_in), None));
+                let desc = || format!("root=[{}] marker={marker} additions={} -> extensible={:?} members={:?}", show(&root), adds.as_ref().map(|a| format!("[{}]", show(a))).unwrap_or("none".into()), got.extensible, got.members.iter().map(|m| m.name.clone()).collect::<Vec<_>>());
+                let got_members: Vec<String> = got.members.iter().map(|m| m.name.clone()).collect();
+                rep.check("C02.seq_from_components.members_in_order", got_members == want_members, desc);
+                rep.check("C02.seq_from_components.root_then_additions", got_members == want_members, desc);
+                rep.check("C02.seq_from_components.components_of_in_order", got.components_of == want_comps, desc);
+                rep.check("C02.seq_from_components.constraints_kept", got.constraints.is_empty(), desc);
+                rep.check("C05.seq_from_components.marker_iff_extensible", got.extensible.is_some() == marker, desc);
+                if marker && !has_comps { rep.check("C05.seq_from_components.index_no_components_of", got.extensible == Some(root_members), desc); }
+                if marker { rep.check("C05.seq_from_components.index_general", got.extensible == Some(root_members), desc); }
+            }
+        }
+    }
+    // plain lists: SEQUENCE/SET members, CHOICE options, ENUMERATED enumerals
+    for n_root in 0..=4usize {
+        for marker in [false, true] {
+            for n_add in std::iter::once(None).chain((0..=3usize).map(Some)) {
+                let names: Vec<String> = (0..n_root).map(|i| format!("r{i}")).chain((0..n_add.unwrap_or(0)).map(|i| format!("a{i}"))).collect();
+                let mk = || if marker { Some(ExtensionMarker()) } else { None };
+                let desc = || format!("root_len={n_root} marker={marker} additions={n_add:?}");
+                let s = SequenceOrSet::from((((0..n_root).map(|i| member(&format!("r{i}"))).collect::<Vec<_>>(), mk(), n_add.map(|k| (0..k).map(|i| member(&format!("a{i}"))).collect::<Vec<_>>())), None));
+                rep.check("C02.seq_from_members.members_in_order", s.members.iter().map(|m| m.name.clone()).collect::<Vec<_>>() == names, desc);
+                rep.check("C02.seq_from_members.no_components_of_invented", s.components_of.is_empty(), desc);
+                rep.check("C02.seq_from_members.constraints_kept", s.constraints.is_empty(), desc);
+                rep.check("C05.seq_from_members.marker_iff_extensible", s.extensible.is_some() == marker, desc);
+                if marker { rep.check("C05.seq_from_members.index_is_root_len", s.extensible == Some(n_root), desc); }
+                let c = Choice::from(((0..n_root).map(|i| option(&format!("r{i}"))).collect::<Vec<_>>(), mk(), n_add.map(|k| (0..k).map(|i| option(&format!("a{i}"))).collect::<Vec<_>>())));
+                rep.check("C02.choice_from.options_in_order", c.options.iter().map(|m| m.name.clone()).collect::<Vec<_>>() == names, desc);
+                rep.check("C02.choice_from.no_constraints_invented", c.constraints.is_empty(), desc);
+                rep.check("C05.choice_from.marker_iff_extensible", c.extensible.is_some() == marker, desc);
+                if marker { rep.check("C05.choice_from.index_is_root_len", c.extensible == Some(n_root), desc); }
+                let e = Enumerated::from(((0..n_root).map(|i| enumeral(&format!("r{i}"), i as i128)).collect::<Vec<_>>(), mk(), n_add.map(|k| (0..k).map(|i| enumeral(&format!("a{i}"), (n_root + i) as i128)).collect::<Vec<_>>())));
+                rep.check("C02.enumerated_from.members_in_order", e.members.iter().map(|m| m.name.clone()).collect::<Vec<_>>() == names, desc);
+                rep.check("C02.enumerated_from.no_constraints_invented", e.constraints.is_empty(), desc);
+                rep.check("C05.enumerated_from.marker_iff_extensible", e.extensible.is_some() == marker, desc);
+                if marker { rep.check("C05.enumerated_from.index_is_root_len", e.extensible == Some(n_root), desc); }
             }
         }
     }
